@@ -15,6 +15,7 @@ set_option linter.unusedSectionVars false
 set_option linter.unusedVariables false
 
 variable {F : Type} [Scalar F]
+variable {fa : List (Nat × Nat)}
 
 /-! ## 1. Reconnection arithmetic (reconnection.rs) -/
 
@@ -1045,10 +1046,10 @@ theorem count_erase_lt (fn : List Nat) (a : Nat) (h : fn.contains a = true) :
   omega
 
 theorem sendBatch_cases (l : FLink F) (now : Nat) (fn : List Nat) :
-    (sendConnectionBatch l now fn).1 = (l.takeBatch now).1 ∧
-    (((sendConnectionBatch l now fn).2.2.1 = true ∧ (sendConnectionBatch l now fn).2.2.2 = fn) ∨
-     ((sendConnectionBatch l now fn).2.2.1 = false ∧ fn.contains l.core.connId = true ∧
-      (sendConnectionBatch l now fn).2.2.2 = fn.erase l.core.connId)) := by
+    (sendConnectionBatch fa l now fn).1 = (l.takeBatch now).1 ∧
+    (((sendConnectionBatch fa l now fn).2.2.1 = true ∧ (sendConnectionBatch fa l now fn).2.2.2 = fn) ∨
+     ((sendConnectionBatch fa l now fn).2.2.1 = false ∧ fn.contains l.core.connId = true ∧
+      (sendConnectionBatch fa l now fn).2.2.2 = fn.erase l.core.connId)) := by
   unfold sendConnectionBatch
   dsimp only
   split
@@ -1088,17 +1089,17 @@ theorem SendStep.comp {cto : Option Nat} {fn fn1 fn2 : List Nat} {a b c : FLink 
     · exact Or.inr ⟨h1.then_torn h2, Nat.lt_of_le_of_lt (l2 _) lt1⟩
 
 /-- Queue one datagram on a link, flush on the regime threshold, tear down on a failed flush. -/
-def fwdLink (l : FLink F) (pkt : Link.Bytes) (seq : Option Nat) (now : Nat) (fn : List Nat) :
+def fwdLink (fa : List (Nat × Nat)) (l : FLink F) (pkt : Link.Bytes) (seq : Option Nat) (now : Nat) (fn : List Nat) :
     FLink F × List (Nat × Sys.Bytes) × List Nat :=
   if (l.queueDataPacket pkt seq now).2 then
-    let r := sendConnectionBatch (l.queueDataPacket pkt seq now).1 now fn
+    let r := sendConnectionBatch fa (l.queueDataPacket pkt seq now).1 now fn
     (if r.2.2.1 then r.1 else r.1.markForRecovery, r.2.1, r.2.2.2)
   else ((l.queueDataPacket pkt seq now).1, [], fn)
 
 theorem fwdLink_step (hc : Bool) (cto : Option Nat) (l : FLink F) (pkt : Link.Bytes) (seq : Option Nat) (now : Nat)
     (fn : List Nat) (hside : hc = true → l.core.phase ≠ .registering ∨ l.core.connected = true) :
-    SendStep hc cto fn (fwdLink l pkt seq now fn).2.2 l (fwdLink l pkt seq now fn).1 ∧
-    FnLe fn (fwdLink l pkt seq now fn).2.2 := by
+    SendStep hc cto fn (fwdLink fa l pkt seq now fn).2.2 l (fwdLink fa l pkt seq now fn).1 ∧
+    FnLe fn (fwdLink fa l pkt seq now fn).2.2 := by
   have hq := ev_queue hc cto l pkt seq now hside
   unfold fwdLink
   split
@@ -1136,8 +1137,8 @@ theorem pw_setAt {R : FLink F → FLink F → Prop} (hr : ∀ a, R a a) (ls : Li
 
 theorem forwardVia_eq (s : Sys F) (sel : Nat) (pkt : Sys.Bytes) (seq : Option Nat) (now : Nat) (l : FLink F)
     (hl : s.links[sel]? = some l) :
-    (forwardVia s sel pkt seq now).1.links = setAt s.links sel (fwdLink l pkt seq now s.failNext).1 ∧
-    (forwardVia s sel pkt seq now).1.failNext = (fwdLink l pkt seq now s.failNext).2.2 ∧
+    (forwardVia s sel pkt seq now).1.links = setAt s.links sel (fwdLink s.failAfter l pkt seq now s.failNext).1 ∧
+    (forwardVia s sel pkt seq now).1.failNext = (fwdLink s.failAfter l pkt seq now s.failNext).2.2 ∧
     (forwardVia s sel pkt seq now).1.reg = s.reg ∧ (forwardVia s sel pkt seq now).1.cfg = s.cfg := by
   unfold forwardVia fwdLink
   rw [hl]
@@ -1148,6 +1149,19 @@ theorem forwardVia_none (s : Sys F) (sel : Nat) (pkt : Sys.Bytes) (seq : Option 
     (hl : s.links[sel]? = none) : (forwardVia s sel pkt seq now).1 = s := by
   unfold forwardVia
   rw [hl]
+
+/-- The arms of the loop only READ the prefix table of the partial send failures. -/
+theorem forwardVia_failAfter (s : Sys F) (sel : Nat) (pkt : Sys.Bytes) (seq : Option Nat) (now : Nat) :
+    (forwardVia s sel pkt seq now).1.failAfter = s.failAfter := by
+  unfold forwardVia
+  split
+  · rfl
+  · dsimp only
+    split <;> rfl
+
+theorem forwardVia_runSelect_failAfter (s : Sys F) (sel : Nat) (pkt : Sys.Bytes) (seq : Option Nat) (now : Nat) :
+    (forwardVia (runSelect s now).1 sel pkt seq now).1.failAfter = s.failAfter :=
+  forwardVia_failAfter _ _ _ _ _
 
 theorem forwardVia_pw (hc : Bool) (cto : Option Nat) (s : Sys F) (sel : Nat) (pkt : Sys.Bytes) (seq : Option Nat) (now : Nat)
     (hside : hc = true → ∀ l, s.links[sel]? = some l → l.core.phase ≠ .registering) :
@@ -1166,9 +1180,9 @@ theorem forwardVia_pw (hc : Bool) (cto : Option Nat) (s : Sys F) (sel : Nat) (pk
     exact ⟨pw_setAt (SendStep.refl _ _ _ _) _ _ l _ hl f1, f2, e3, e4⟩
 
 /-- One iteration of `send_stall_probes` on a gated, connected link other than the chosen one. -/
-def probeLink (l : FLink F) (pkt : Link.Bytes) (seq : Option Nat) (now : Nat) (fn : List Nat) :
+def probeLink (fa : List (Nat × Nat)) (l : FLink F) (pkt : Link.Bytes) (seq : Option Nat) (now : Nat) (fn : List Nat) :
     FLink F × List (Nat × Sys.Bytes) × List Nat :=
-  if !l.stallProbeDue.2 then (l.stallProbeDue.1, [], fn) else fwdLink l.stallProbeDue.1 pkt seq now fn
+  if !l.stallProbeDue.2 then (l.stallProbeDue.1, [], fn) else fwdLink fa l.stallProbeDue.1 pkt seq now fn
 
 theorem stallProbeDue_core (l : FLink F) : l.stallProbeDue.1.core = l.core := by
   unfold FLink.stallProbeDue
@@ -1177,8 +1191,8 @@ theorem stallProbeDue_core (l : FLink F) : l.stallProbeDue.1.core = l.core := by
 
 theorem probeLink_step (hc : Bool) (cto : Option Nat) (l : FLink F) (pkt : Link.Bytes) (seq : Option Nat) (now : Nat)
     (fn : List Nat) (hconn : l.core.connected = true) :
-    SendStep hc cto fn (probeLink l pkt seq now fn).2.2 l (probeLink l pkt seq now fn).1 ∧
-    FnLe fn (probeLink l pkt seq now fn).2.2 := by
+    SendStep hc cto fn (probeLink fa l pkt seq now fn).2.2 l (probeLink fa l pkt seq now fn).1 ∧
+    FnLe fn (probeLink fa l pkt seq now fn).2.2 := by
   have hp := ev_stallProbeDue hc cto l
   unfold probeLink
   split
@@ -1189,17 +1203,17 @@ theorem probeLink_step (hc : Bool) (cto : Option Nat) (l : FLink F) (pkt : Link.
 
 theorem stallProbesGo_cons (pkt : Sys.Bytes) (seq : Option Nat) (now sel : Nat) (l : FLink F)
     (rest : List (FLink F)) (i : Nat) (fn : List Nat) :
-    stallProbesGo pkt seq now sel (l :: rest) i fn =
+    stallProbesGo fa pkt seq now sel (l :: rest) i fn =
       if i = sel || !l.stallGated || !l.core.connected then
-        (l :: (stallProbesGo pkt seq now sel rest (i + 1) fn).1,
-         (stallProbesGo pkt seq now sel rest (i + 1) fn).2.1,
-         (stallProbesGo pkt seq now sel rest (i + 1) fn).2.2)
+        (l :: (stallProbesGo fa pkt seq now sel rest (i + 1) fn).1,
+         (stallProbesGo fa pkt seq now sel rest (i + 1) fn).2.1,
+         (stallProbesGo fa pkt seq now sel rest (i + 1) fn).2.2)
       else
-        ((probeLink l pkt seq now fn).1 ::
-            (stallProbesGo pkt seq now sel rest (i + 1) (probeLink l pkt seq now fn).2.2).1,
-         (probeLink l pkt seq now fn).2.1 ++
-            (stallProbesGo pkt seq now sel rest (i + 1) (probeLink l pkt seq now fn).2.2).2.1,
-         (stallProbesGo pkt seq now sel rest (i + 1) (probeLink l pkt seq now fn).2.2).2.2) := by
+        ((probeLink fa l pkt seq now fn).1 ::
+            (stallProbesGo fa pkt seq now sel rest (i + 1) (probeLink fa l pkt seq now fn).2.2).1,
+         (probeLink fa l pkt seq now fn).2.1 ++
+            (stallProbesGo fa pkt seq now sel rest (i + 1) (probeLink fa l pkt seq now fn).2.2).2.1,
+         (stallProbesGo fa pkt seq now sel rest (i + 1) (probeLink fa l pkt seq now fn).2.2).2.2) := by
   rw [stallProbesGo]
   split
   · rfl
@@ -1214,8 +1228,8 @@ theorem stallProbesGo_cons (pkt : Sys.Bytes) (seq : Option Nat) (now sel : Nat) 
 
 theorem stallProbes_pw (hc : Bool) (cto : Option Nat) (pkt : Sys.Bytes) (seq : Option Nat) (now sel : Nat)
     (ls : List (FLink F)) (i : Nat) (fn : List Nat) :
-    PW (SendStep hc cto fn (stallProbesGo pkt seq now sel ls i fn).2.2) ls (stallProbesGo pkt seq now sel ls i fn).1 ∧
-    FnLe fn (stallProbesGo pkt seq now sel ls i fn).2.2 := by
+    PW (SendStep hc cto fn (stallProbesGo fa pkt seq now sel ls i fn).2.2) ls (stallProbesGo fa pkt seq now sel ls i fn).1 ∧
+    FnLe fn (stallProbesGo fa pkt seq now sel ls i fn).2.2 := by
   induction ls generalizing i fn with
   | nil => exact ⟨.nil, FnLe.refl _⟩
   | cons l rest ih =>
@@ -1228,7 +1242,7 @@ theorem stallProbes_pw (hc : Bool) (cto : Option Nat) (pkt : Sys.Bytes) (seq : O
         simp only [Bool.or_eq_true, Bool.not_eq_true', not_or] at hcond
         simpa using hcond.2
       obtain ⟨p1, p2⟩ := probeLink_step hc cto l pkt seq now fn hconn
-      obtain ⟨h1, h2⟩ := ih (i + 1) (probeLink l pkt seq now fn).2.2
+      obtain ⟨h1, h2⟩ := ih (i + 1) (probeLink fa l pkt seq now fn).2.2
       dsimp only
       exact ⟨.cons (p1.mono (FnLe.refl _) h2) (h1.mono (fun a b h => h.mono p2 (FnLe.refl _))), p2.trans h2⟩
 
@@ -1256,8 +1270,8 @@ def clientFwd (s : Sys F) (pkt : Sys.Bytes) (now i : Nat) : Sys F :=
   let seq := Codec.getSrtSequenceNumberS pkt
   let s2 := (forwardVia (runSelect s now).1 i pkt seq now).1
   if seq.isSome then
-    { s2 with links := (stallProbesGo pkt seq now i s2.links 0 s2.failNext).1,
-              failNext := (stallProbesGo pkt seq now i s2.links 0 s2.failNext).2.2, clientKnown := true }
+    { s2 with links := (stallProbesGo s2.failAfter pkt seq now i s2.links 0 s2.failNext).1,
+              failNext := (stallProbesGo s2.failAfter pkt seq now i s2.links 0 s2.failNext).2.2, clientKnown := true }
   else { s2 with clientKnown := true }
 
 theorem handleSrtPacket_some (s : Sys F) (pkt : Sys.Bytes) (now i : Nat) (hne : pkt.isEmpty = false)
@@ -1514,7 +1528,7 @@ theorem client_pw (s : Sys F) (pkt : Sys.Bytes) (now : Nat) :
 /-! ## 8. The flush arm -/
 
 theorem flushGo_pw (hc : Bool) (cto : Option Nat) (now : Nat) (ls : List (FLink F)) (fn : List Nat) :
-    PW (Evolves hc cto) ls (flushGo now ls fn).1 := by
+    PW (Evolves hc cto) ls (flushGo fa now ls fn).1 := by
   induction ls generalizing fn with
   | nil => exact .nil
   | cons l rest ih =>
@@ -2104,6 +2118,7 @@ theorem step_link (s : Sys F) (e : Ev) (hnr : e.isReload = false) :
   | setCfg cfg => exact ⟨hsame _ rfl, rfl, fun h => h⟩
   | crit d => exact ⟨hsame _ rfl, rfl, fun h => h⟩
   | failNext cid => exact ⟨hsame _ rfl, rfl, fun h => h⟩
+  | failAfter cid kfa => exact ⟨hsame _ rfl, rfl, fun h => h⟩
   | failBind cid => exact ⟨hsame _ rfl, rfl, fun h => h⟩
   | stamp idx weak ld ccb cct =>
     refine ⟨fun j l hl => ?_, stampLink_length _ _ _ _ _ _, fun h => h⟩
